@@ -138,6 +138,9 @@ func main() {
 		obs := append([]*core.Obligation{}, c.Obs...)
 		sort.SliceStable(obs, func(i, j int) bool { return obs[i].Key < obs[j].Key })
 		for _, o := range obs {
+			if o.Known != "" && !*verbose {
+				continue
+			}
 			if *verbose || o.Status != core.Discharged {
 				fmt.Printf("  [%s] %s @%s: %s\n", o.Status, o.Key, o.Pos, o.Detail)
 				for _, s := range o.Path {
@@ -146,7 +149,11 @@ func main() {
 			}
 		}
 		for _, o := range out.Known {
-			fmt.Printf("KNOWN-FINDING: property=%s %s @%s: %s\n", id, o.Key, o.Pos, o.Detail)
+			what := o.Known
+			if len(what) > 300 {
+				what = what[:300] + "..."
+			}
+			fmt.Printf("KNOWN-FINDING: property=%s %s @%s: %s\n", id, o.Key, o.Pos, what)
 		}
 		vfile := filepath.Join(*evdir, id+".violations.json")
 		if !*noev {
